@@ -638,3 +638,52 @@ theorem http_roundtrip_lemma (st : HttpSt) (l0 : Bytes) (rest0 : List Bytes) (h 
         simp [Spec.framingOf, hpv, Spec.deBody, hl2, List.append_assoc]
 
 end Cppcms.C03
+
+namespace Cppcms.C03
+open Cppcms
+
+/-! ### `response_headers` formatting as lines -/
+
+theorem lit_headerSep_lineEnd : b Gen.lineEnd = [13, 10] ∧ b Gen.headerSep = [58, 32] := by decide
+
+/-- the header lines `format_cgi_headers` / `format_http_headers` write (`skip`: leave out the `Status` entry) -/
+def Headers.lines (h : Headers) (skip : Option Bytes) : List Bytes :=
+  (h.map.flatMap fun kv =>
+      match skip with
+      | some s => if ieq kv.1 s then [] else [kv.1 ++ [58, 32] ++ kv.2]
+      | none => [kv.1 ++ [58, 32] ++ kv.2]) ++ h.added
+
+theorem flatMap_lines (a : List Bytes) : (a.flatMap (· ++ [13, 10])) = joinLines a := by
+  induction a with
+  | nil => simp [joinLines]
+  | cons x a ih => rw [List.flatMap_cons, joinLines_cons, ih]
+
+theorem fmtLines_eq (h : Headers) (skip : Option Bytes) : fmtLines h skip = joinLines (h.lines skip) := by
+  have ⟨e1, e2⟩ := lit_headerSep_lineEnd
+  cases skip with
+  | none =>
+    simp only [fmtLines, Headers.lines, joinLines_append, e1, e2, flatMap_lines]
+    congr 1
+    generalize h.map = m
+    induction m with
+    | nil => simp [joinLines]
+    | cons kv m ih => simp only [List.flatMap_cons, joinLines_append, ih]; simp [joinLines, List.append_assoc]
+  | some s =>
+    simp only [fmtLines, Headers.lines, joinLines_append, e1, e2, flatMap_lines]
+    congr 1
+    generalize h.map = m
+    induction m with
+    | nil => simp [joinLines]
+    | cons kv m ih =>
+      simp only [List.flatMap_cons, joinLines_append, ih]
+      split <;> simp [joinLines, List.append_assoc]
+
+/-- SCGI/FastCGI: the block `format_xcgi_response_headers` builds from clean header lines is exactly one header block -/
+theorem xcgi_headOk (h : Headers) (hne : h.lines none ≠ []) (hok : ∀ l ∈ h.lines none, LineOk l) :
+    HeadOk (xcgiHeaders false h) ∧ xcgiHeaders false h = joinLines (h.lines none) ++ [13, 10] := by
+  have e : xcgiHeaders false h = joinLines (h.lines none) ++ [13, 10] := by
+    simp [xcgiHeaders, Headers.fmtCgi, fmtLines_eq, lit_headerSep_lineEnd.1]
+  rw [e]
+  exact ⟨headOk_lines _ hne hok, rfl⟩
+
+end Cppcms.C03
